@@ -34,6 +34,7 @@ type CorpusInfo struct {
 	SCSOnly  bool
 	R1CSOnly bool
 	Small    bool // compiles over the small fields (no curve-specific hash / commitment needed)
+	Many     bool // cheap circuit whose compilation involves a cost tie: compiled many more times by the determinism recorder
 }
 
 var CorpusList = []CorpusInfo{
@@ -50,6 +51,12 @@ var CorpusList = []CorpusInfo{
 	{Name: "wide", Small: true, NbPub: 1, NbSec: 1},
 	{Name: "wirequery", Small: true, NbPub: 2, NbSec: 5, SCSOnly: true},
 	{Name: "selector", Small: true, NbPub: 1, NbSec: 4},
+	{Name: "wide2", NbPub: 2, NbSec: 1},
+	{Name: "wirequery2", Small: true, NbPub: 2, NbSec: 5, SCSOnly: true},
+	{Name: "rangetie3", NbPub: 1, NbSec: 4, Commits: true, Many: true},
+	{Name: "rangetie4", NbPub: 1, NbSec: 4, Commits: true, Many: true},
+	{Name: "hintdyn", Small: true, NbPub: 2, NbSec: 1},
+	{Name: "hintlazy", Small: true, NbPub: 1, NbSec: 1},
 }
 
 func CorpusByName(name string) CorpusInfo {
@@ -67,7 +74,26 @@ func NewCorpus(kind string) *Corpus {
 }
 
 func init() {
-	solver.RegisterHint(VerifInvHint, VerifSqrtishHint)
+	solver.RegisterHint(VerifInvHint, VerifSqrtishHint, LazyInvHint)
+}
+
+// DynHint returns a hint closure computing in[0]+k. All closures share one hint id (it is derived from
+// the function name), so a solve must use exactly the closure handed to it through solver.WithHints.
+//
+//go:noinline
+func DynHint(k int64) solver.Hint {
+	return func(m *big.Int, in, out []*big.Int) error {
+		out[0].Add(in[0], big.NewInt(k)).Mod(out[0], m)
+		return nil
+	}
+}
+
+// LazyInvHint writes the inverse of a non-zero input and leaves the (initialised) output untouched for 0.
+func LazyInvHint(m *big.Int, in, out []*big.Int) error {
+	if in[0].Sign() != 0 {
+		out[0].ModInverse(in[0], m)
+	}
+	return nil
 }
 
 // VerifInvHint returns the modular inverse of its input (0 for 0).
@@ -163,6 +189,30 @@ func AssignCorpusN(kind string, variant int, mod *big.Int, n int) *Corpus {
 	case "wirequery":
 		c.P[0] = mul(s[0], s[1])
 		c.P[1] = big.NewInt(val(kind, variant, 11))
+	case "wide2":
+		// N inverses in one level: S0+i must differ from P1 for all i; P0 = S0
+		c.P[0] = new(big.Int).Set(s[0])
+		c.P[1] = red(new(big.Int).Sub(s[0], big.NewInt(5)))
+	case "hintdyn":
+		// P1 = k (the closure parameter the solve has to use), P0 = S0 + k
+		c.P[1] = int64(variant + 1)
+		c.P[0] = add(s[0], big.NewInt(int64(variant+1)))
+	case "hintlazy":
+		// odd variants: S0 = 0 (P0 = 1: "is zero"); even variants: S0 != 0 (P0 = 0)
+		if variant%2 == 1 {
+			c.S[0] = 0
+			c.P[0] = 1
+		} else {
+			c.P[0] = 0
+		}
+	case "wirequery2":
+		c.P[0] = mul(s[0], s[1])
+		c.P[1] = big.NewInt(val(kind, variant, 11))
+	case "rangetie3", "rangetie4":
+		for i := range c.S {
+			c.S[i] = int64((variant*7 + i*5) % 64)
+		}
+		c.P[0] = int64((variant*7)%64 + (variant*7+5)%64)
 	case "selector":
 		// S3 = index in 0..2 ; P0 = S[S3]
 		idx := int64(variant % 3)
@@ -250,6 +300,13 @@ func (c *Corpus) Define(api frontend.API) error {
 		s := f.Add(a, b)
 		d := f.Sub(s, b)
 		f.AssertIsEqual(d, a)
+		// a long addition chain: the overflow bookkeeping has to insert reductions, at a point that
+		// depends on the native field's size
+		acc := a
+		for i := 0; i < 340; i++ {
+			acc = f.Add(acc, b)
+		}
+		f.AssertIsEqual(acc, f.Add(a, f.MulConst(b, big.NewInt(340))))
 		api.AssertIsEqual(api.Add(S[0], S[1]), P[0])
 	case "defer":
 		rc := rangecheck.New(api)
@@ -302,6 +359,49 @@ func (c *Corpus) Define(api frontend.API) error {
 		if _, err := q.GetWireConstraints([]frontend.Variable{S[4], S[2], P[1], S[3], S[0]}, true); err != nil {
 			return err
 		}
+	case "wide2":
+		api.AssertIsEqual(S[0], P[0])
+		for i := 0; i < c.N; i++ {
+			api.AssertIsDifferent(api.Add(S[0], i), P[1])
+		}
+	case "hintdyn":
+		out, err := api.Compiler().NewHint(DynHint(0), 1, S[0])
+		if err != nil {
+			return err
+		}
+		api.AssertIsEqual(out[0], api.Add(S[0], P[1]))
+		api.AssertIsEqual(out[0], P[0])
+	case "hintlazy":
+		out, err := api.Compiler().NewHint(LazyInvHint, 1, S[0])
+		if err != nil {
+			return err
+		}
+		api.AssertIsEqual(api.Mul(out[0], S[0]), api.Sub(1, P[0]))
+		api.AssertIsEqual(api.Mul(out[0], P[0]), 0)
+	case "wirequery2":
+		api.AssertIsEqual(api.Mul(S[0], S[1]), P[0])
+		type wqe interface {
+			GetWiresConstraintExact(wires []frontend.Variable, addMissing bool) ([][2]int, error)
+		}
+		q, ok := api.Compiler().(wqe)
+		if !ok {
+			return fmt.Errorf("builder has no exact wire query interface")
+		}
+		// repeated wires, unconstrained wires and several distinct constants
+		if _, err := q.GetWiresConstraintExact([]frontend.Variable{S[4], 7, S[2], 3, P[1], 11, S[3], 7, S[0], 5, S[2]}, true); err != nil {
+			return err
+		}
+	case "rangetie3", "rangetie4":
+		// several checks of one small width: candidate limb widths tie in cost
+		rc := rangecheck.New(api)
+		n := 3
+		if c.Kind == "rangetie4" {
+			n = 4
+		}
+		for i := 0; i < n; i++ {
+			rc.Check(S[i], 6)
+		}
+		api.AssertIsEqual(api.Add(S[0], S[1]), P[0])
 	case "selector":
 		v := selector.Mux(api, S[3], S[0], S[1], S[2])
 		api.AssertIsEqual(v, P[0])
